@@ -127,6 +127,20 @@ def check_text(ctx, text, origin, mode):
         report = MAIN_REPORT
         contextualize_report('first = 1\n' * (3 if len(text) % 2 else 0) + 'kept = 2\n')
         call = lambda: verify(text, filename='fragment.py')
+    elif mode == 'verify-after-substitution-restored':
+        # the grader looked at some other code for a while (set_source substitutes and verifies it) and went back to the submission
+        from pedal.source.source import restore_code
+        report = MAIN_REPORT
+        contextualize_report(text)
+        set_source('kept = 2\nprint(kept)\n')
+        call = lambda: (restore_code(), report['source']['success'])[1]       # restoring verifies what was restored
+    elif mode == 'verify-after-the-submission-was-replaced':
+        # one report, a first (valid, verified) submission, then another one attached without clearing
+        report = MAIN_REPORT
+        contextualize_report('kept = 2\nprint(kept)\n')
+        verify()
+        contextualize_report(text, clear=False)
+        call = lambda: verify()
     else:
         report = MAIN_REPORT
         contextualize_report(text)
@@ -223,7 +237,8 @@ def check_text(ctx, text, origin, mode):
                     'line': getattr(syn_cat[0].location, 'line', None) if syn_cat else None})
 
 
-MODES = ['verify', 'verify', 'set_source', 'private', 'section', 'set_source-other-filename', 'verify-given-code-and-filename']
+MODES = ['verify', 'verify', 'set_source', 'private', 'section', 'set_source-other-filename', 'verify-given-code-and-filename',
+         'verify-after-substitution-restored', 'verify-after-the-submission-was-replaced']
 SECTION_PREFIXES = ['a = 1\rb = 2\n', 'a = 1\r\nb = 2\r\n', 'x = 1\r\r\ny = 2\n', '', 'a = 1\n', 'a = 1\nb = 2\n\n', '# page\x0cbreak\nx = "\x0c"\n', 'import math\n\n\n\n',
                     's = "\u2028"\nt = "\x1c\x1d"\n', '\n\n', 'def f():\n    return 1\n']
 
@@ -237,7 +252,7 @@ def run(ctx):
     repo = os.path.realpath(os.environ.get('VERIF_REPO', '/repo'))
     if ctx.shard == 0:
         for t in HOSTILE:
-            for mode in ('verify', 'set_source', 'private', 'section') + (('set_source-other-filename', 'verify-given-code-and-filename') if len(t) < 5000 else ()):
+            for mode in ('verify', 'set_source', 'private', 'section') + (('set_source-other-filename', 'verify-given-code-and-filename', 'verify-after-substitution-restored', 'verify-after-the-submission-was-replaced') if len(t) < 5000 else ()):
                 check_text(ctx, t, 'hostile', mode)
         # NUL / CR / FF / BOM inserted at every position of a short program
         base = 'x = 1\nif x:\n    print("a")\n'
